@@ -14,6 +14,7 @@ case: ( trigger roller pre a0 ops )   -- see harness/src/rolling_c05.rs
   ops    : [0, [chunk...]] | [1, a] | [2, [[rec...]...]]  (burst of threads) | [3, t] (set the hook clock)
            | [4, a] hot restart (old instance stays alive) | [5, [chunk...]] append through the old instance
            | [6] drop the old instance | [7, [chunk...]] append while the roller is set to fail
+           | [12, [chunk...]] append while the roller is set to ROTATE AND THEN report failure
            | [10, [chunk...], record, via] append whose encoder (via 1) or roller (via 2) appends `record` to a SECOND
              rolling appender (side/cur.log, SizeTrigger(10), window of 2) from inside the call; for the model of the
              main appender an ordinary append; the second appender is judged by the stream / size oracles
@@ -96,7 +97,7 @@ def time_script(case):
         elif o[0] == 1:
             next_ = nxt(clock)
         else:
-            k = 1 if o[0] in (0, 5, 7, 10) else sum(len(t) for t in o[1])
+            k = 1 if o[0] in (0, 5, 7, 10, 12) else sum(len(t) for t in o[1])
             for _ in range(k):
                 fire = clock >= next_
                 if fire:
@@ -337,8 +338,8 @@ def compare(case, impl, model):
                 if not ok:
                     return ("op %d: directory right after the call (background rotation possibly running) %r is none of "
                             "the %d states of the background-rotation model %r" % (i, pend, len(cands), cands))
-            new_recs = [rec_of(o[1])] if o[0] in (0, 5, 7, 10) else []
-            if o[0] == 7 and m_err and is_pre_trigger(trig):
+            new_recs = [rec_of(o[1])] if o[0] in (0, 5, 7, 10, 12) else []
+            if o[0] in (7, 12) and m_err and is_pre_trigger(trig):
                 new_recs = []          # pre-processing: the early Err return skipped the write
         if errors != m_err:
             return "op %d: %d call(s) returned an error, model %d" % (i, errors, m_err)
@@ -369,6 +370,8 @@ def compare(case, impl, model):
         STATS["rotations"] += nrolled
         if o[0] == 7 and nreq:
             STATS["failed_rolls"] = STATS.get("failed_rolls", 0) + nreq
+        if o[0] == 12 and nreq:
+            STATS["rolls_failing_after_the_rotation"] = STATS.get("rolls_failing_after_the_rotation", 0) + nreq
         kind = {0: "size", 1: "startup", 2: "user", 3: "time"}[trig[0]]
         STATS["rotations_" + kind] = STATS.get("rotations_" + kind, 0) + nrolled
         if o[0] in (1, 4):
@@ -392,7 +395,7 @@ def compare(case, impl, model):
                     return "op %d: first record, file of %d bytes, min_size %d, rotation requested=%r" % (i, c[1], trig[1], c[2])
                 life_rolls += 1 if c[2] else 0
                 life_appends += 1
-            if o[0] == 7 and errors and not consults:
+            if o[0] in (7, 12) and errors and not consults:
                 life_appends += 1
         # C05: archives oldest..newest then active = suffix of the stream at a record
         # boundary, every file made of whole records
@@ -505,6 +508,7 @@ def classify(case):
     extra += "+restart" if any(o[0] == 1 for o in ops) else ""
     extra += "+hot-restart" if any(o[0] == 4 for o in ops) else ""
     extra += "+failing-roll" if any(o[0] == 7 for o in ops) else ""
+    extra += "+roll-failing-after-rotation" if any(o[0] == 12 for o in ops) else ""
     extra += "+archive-ENOSPC" if any(o[0] == 8 for o in ops) else ""
     return "%s/%s%s" % (t, r, extra)
 
@@ -539,6 +543,8 @@ def describe(case):
             return "archive slot healed"
         if o[0] == 7:
             return "append %d bytes in %d chunk(s), roller set to fail" % (len(rec_of(o[1])), len(o[1]))
+        if o[0] == 12:
+            return "append %d bytes in %d chunk(s), roller set to rotate and THEN report failure" % (len(rec_of(o[1])), len(o[1]))
         if o[0] == 11:
             return "append %d bytes in %d chunk(s), the encoder then FAILS" % (len(rec_of(o[1])), len(o[1]))
         if o[0] == 10:
